@@ -9,6 +9,9 @@
 //	hack <largest>           handleAck(largest)  (an ACK for one of our ACK-carrying packets)
 //	sent                     sentAck()
 //	frame <avail> <delay>    acksToSend -> appendAckFrame (avail bytes left) -> consumeAckFrame
+//	sweep <delay> <s-e,…>    appendAckFrame on the given range set for EVERY room size 0..full+2, each frame
+//	                         decoded with consumeAckFrame: the ranges on the wire must be the newest ranges of the
+//	                         set, in order (a prefix, newest first); result: number of ranges per room size
 //
 // Result lines carry the complete `seen` rangeset and unackedAckEliciting.
 package quic
@@ -28,9 +31,42 @@ func TestVerifC25Acks(t *testing.T) {
 
 var c25Base = time.Date(2024, 1, 1, 0, 0, 0, 0, time.UTC)
 
+// c25SweepSet: a range set whose gaps and lengths straddle the varint size boundaries.
+func c25SweepSet(r *vu.Rng) string {
+	pool := []int64{1, 1, 2, 3, 10, 62, 63, 64, 65, 66, 100, 16382, 16383, 16384, 16385, 16386, 1<<30 - 1, 1 << 30, 1<<30 + 1, 1<<30 + 2}
+	nr := r.Range(2, 8)
+	if r.Chance(1, 12) {
+		nr = r.Range(62, 70) // more ranges than fit the one-byte range count
+	}
+	pos := int64(r.Intn(3))
+	if r.Chance(1, 4) {
+		pos = int64(r.Boundary(40))
+	}
+	var parts []string
+	for j := 0; j < nr; j++ {
+		ln := pool[r.Intn(len(pool))]
+		if nr > 10 {
+			ln = int64(r.Range(1, 2))
+		}
+		parts = append(parts, fmt.Sprintf("%d-%d", pos, pos+ln))
+		gap := pool[r.Intn(len(pool))]
+		if nr > 10 {
+			gap = int64(r.Range(1, 70))
+		}
+		pos += ln + gap // next start: at least one missing number in between
+	}
+	return strings.Join(parts, ",")
+}
+
 func c25Gen(r *vu.Rng, i int) []string {
 	space := r.Intn(3)
 	ops := []string{fmt.Sprintf("reset %d", space)}
+	if r.Chance(1, 4) {
+		for j, m := 0, r.Range(1, 4); j < m; j++ {
+			ops = append(ops, fmt.Sprintf("sweep %d %s", r.Boundary(30), c25SweepSet(r)))
+		}
+		return ops
+	}
 	var sim ackState // only used to aim the generator at interesting numbers
 	now := c25Base
 	n := r.Range(5, 90)
@@ -266,6 +302,74 @@ func c25Step(st *c25State, op string, o *vu.Out) string {
 		a.sentAck()
 		c25Oracle(st, o, op)
 		return "ok " + c25StateStr(st)
+	case t[0] == "sweep" && len(t) == 3:
+		delay := vu.Atoi64(t[1])
+		if delay < 0 || delay >= 1<<62 {
+			return "bad-op"
+		}
+		var set rangeset[packetNumber]
+		prev := int64(-2)
+		for _, part := range strings.Split(t[2], ",") {
+			var lo, hi int64
+			if n, err := fmt.Sscanf(part, "%d-%d", &lo, &hi); n != 2 || err != nil || fmt.Sprintf("%d-%d", lo, hi) != part ||
+				lo <= prev || hi <= lo || hi >= 1<<61 {
+				return "bad-op" // ranges must be non-empty, increasing and non-adjacent
+			}
+			set = append(set, i64range[packetNumber]{packetNumber(lo), packetNumber(hi)})
+			prev = hi
+		}
+		if len(set) == 0 || len(set) > 100 {
+			return "bad-op"
+		}
+		build := func(avail int) (ranges []i64range[packetNumber], size int, added bool) {
+			var w packetWriter
+			w.b = make([]byte, 0, avail+16)
+			w.pktLim = avail
+			w.sent = newSentPacket()
+			added = w.appendAckFrame(set, unscaledAckDelay(delay), ecnCounts{})
+			if !added {
+				if len(w.b) != 0 {
+					o.Fail("", fmt.Sprintf("appendAckFrame(room %d) wrote bytes but reported added=false", avail))
+				}
+				return nil, 0, false
+			}
+			if len(w.b) > avail {
+				o.Fail("", fmt.Sprintf("appendAckFrame wrote %d bytes with room %d", len(w.b), avail))
+			}
+			_, _, _, n := consumeAckFrame(w.b, func(_ int, start, end packetNumber) {
+				ranges = append(ranges, i64range[packetNumber]{start, end})
+			})
+			if n != len(w.b) {
+				o.Fail("", fmt.Sprintf("ACK frame %x built with room %d does not parse back", w.b, avail))
+			}
+			return ranges, len(w.b), true
+		}
+		_, full, ok := build(65536)
+		if !ok {
+			return "err full"
+		}
+		var ks []string
+		for avail := 0; avail <= full+2; avail++ {
+			ranges, _, added := build(avail)
+			if !added {
+				ks = append(ks, "-1")
+				continue
+			}
+			ks = append(ks, fmt.Sprint(len(ranges)))
+			o.Stat("sweep:frames")
+			if len(ranges) < len(set) {
+				o.Stat("sweep:truncated")
+			}
+			// ---- oracle: the frame acknowledges exactly the newest len(ranges) ranges of the set
+			for j, rg := range ranges {
+				if j >= len(set) || rg != set[len(set)-1-j] {
+					o.Fail("", fmt.Sprintf("ACK frame built with room %d for %s carries range #%d = [%d,%d), which is not the set's range #%d from the top: it acknowledges packet numbers that were not received",
+						avail, t[2], j, rg.start, rg.end, j))
+					break
+				}
+			}
+		}
+		return fmt.Sprintf("ok full=%d k=%s", full, strings.Join(ks, ","))
 	case t[0] == "frame" && len(t) == 3:
 		avail := vu.Atoi(t[1])
 		delay := vu.Atoi64(t[2])
